@@ -28,28 +28,29 @@ def cfg():
     return rel.RelCfg(body_to_one="A5" not in k)
 
 
-def run_django(inst, text):
+def run_django(inst, text, root="Item"):
     from odata_query.django import apply_odata_query
     M = db_orm.django_load(inst)
-    return list(apply_odata_query(M.Item.objects, text).values_list("id", flat=True))
+    return list(apply_odata_query(getattr(M, root).objects, text).values_list("id", flat=True))
 
 
-def run_sqla(inst, text, legacy=False):
+def run_sqla(inst, text, legacy=False, root="Item"):
     from odata_query.sqlalchemy import apply_odata_query
     S = db_orm.sqlalchemy_load(inst)
     S.session.expunge_all()
+    model = getattr(S, root)
     try:
         if legacy:
-            return [o.id for o in apply_odata_query(S.session.query(S.Item), text).all()]
-        return [o.id for o in S.session.execute(apply_odata_query(S.sa.select(S.Item), text)).scalars().all()]
+            return [o.id for o in apply_odata_query(S.session.query(model), text).all()]
+        return [o.id for o in S.session.execute(apply_odata_query(S.sa.select(model), text)).scalars().all()]
     except Exception:
         S.session.rollback()
         raise
 
 
-BACKENDS = [("django", lambda i, t: run_django(i, t)),
-            ("sqlalchemy-select", lambda i, t: run_sqla(i, t)),
-            ("sqlalchemy-legacy", lambda i, t: run_sqla(i, t, legacy=True))]
+BACKENDS = [("django", lambda i, t, r: run_django(i, t, r)),
+            ("sqlalchemy-select", lambda i, t, r: run_sqla(i, t, root=r)),
+            ("sqlalchemy-legacy", lambda i, t, r: run_sqla(i, t, legacy=True, root=r))]
 
 
 def has_body_to_one(t):
@@ -62,7 +63,8 @@ def check_case(case, fenced=True):
     inst = case["inst"]
     text = printer.render(t)
     graph = rel.Graph(inst)
-    verdicts = {it["id"]: rel.verdict(t, graph, it) for it in inst["items"]}
+    root = case.get("root", "Item")
+    verdicts = {it["id"]: rel.verdict(t, graph, it, root) for it in inst[rel.TABLE_KEY[root]]}
     stats = {"decided": sum(1 for v in verdicts.values() if v[0]), "undecided": sum(1 for v in verdicts.values() if not v[0])}
     case["_stats"] = stats
     fences = known_ids(PROPERTY_ID) if fenced else set()
@@ -71,8 +73,11 @@ def check_case(case, fenced=True):
         if name.startswith("sqlalchemy") and "A5" in fences and has_body_to_one(t):
             stats["excluded_by_known_finding"] = stats.get("excluded_by_known_finding", 0) + 1
             continue
+        if name.startswith("sqlalchemy") and "A8" in fences and rel.same_model_twice(t, root):
+            stats["excluded_by_known_finding"] = stats.get("excluded_by_known_finding", 0) + 1
+            continue
         try:
-            ids = fn(inst, text)
+            ids = fn(inst, text, root)
         except exceptions.ODataException as e:
             return ("%s:refused:%s" % (name.split("-")[0], type(e).__name__), "%s %r -> %s: %s" % (name, text, type(e).__name__, e))
         except Exception as e:
@@ -194,8 +199,16 @@ def shrink(case, bucket):
     return dict(case, inst=inst)
 
 
-def nontrivial(t, inst):
+def nontrivial(t, inst, root="Item"):
     feats = rel.features(t)
+    if root != "Item":
+        graph = rel.Graph(inst)
+        objs = inst[rel.TABLE_KEY[root]]
+        if not (feats & {"path"} or any(f.startswith("lambda") for f in feats)):
+            return False
+        if root == "Owner":
+            return any(o.get("org") is None or o.get("region") is None or not graph.many("Owner", o, "items") for o in objs)
+        return any(not graph.many("Tag", o, "items") for o in objs)
     if not (feats & {"path"} or any(f.startswith("lambda") for f in feats)):
         return False
     graph = rel.Graph(inst)
@@ -259,8 +272,9 @@ def run_task(task, seed, acc):
         t = from_json(case["term"])
         r = check_case(case)
         stats = case.pop("_stats", {})
-        nt = nontrivial(t, case["inst"]) and stats.get("decided", 0) >= 1
-        acc.case(key=digest([case["term"], case["inst"]]), nontrivial=nt, n=3,
+        nt = nontrivial(t, case["inst"], case.get("root", "Item")) and stats.get("decided", 0) >= 1
+        acc.cls("root_" + case.get("root", "Item"))
+        acc.case(key=digest([case["term"], case["inst"], case.get("root", "Item")]), nontrivial=nt, n=3,
                  sample={"filter": printer.render(t), "items": len(case["inst"]["items"]),
                          "parts": len(case["inst"]["parts"]), "owners": len(case["inst"]["owners"])})
         for f in rel.features(t):
@@ -281,10 +295,13 @@ def run_task(task, seed, acc):
         acc.extra["exhaustive"] = True
         return
     c = cfg()
-    strat = st.tuples(rel.rel_pred(task["depth"], c), rel.instances())
+    strat = st.sampled_from(["Item", "Item", "Item", "Owner", "Owner", "Tag"]).flatmap(
+        lambda root: st.tuples(rel.rel_pred(task["depth"], c, root), rel.instances(), st.just(root)))
 
     def fn(p):
-        t, inst = p
-        one({"term": to_json(t), "inst": inst})
+        t, inst, root = p
+        if not inst[rel.TABLE_KEY[root]]:
+            return
+        one({"term": to_json(t), "inst": inst, "root": root})
 
     hyp_run(strat, fn, task["n"], seed * 1000 + task["shard"])
